@@ -82,6 +82,15 @@ def eval_migration(f, path, records, target_empty=True):
     from . import feval as E, coll
     log = []
     C = coll.Collections(f, sort_key=lambda it, v: E.describe(it.resolve(v), f))
+    # table definitions are named constants (`TableDefinition::new("records-1")`): map their evaluated rendering to the constant's name
+    ROLE = {}
+    for cpath, cb in f.bodies.items():
+        if cb.kind == "const" and cpath.startswith("store::fs::tables::") and cpath.endswith("_TABLE"):
+            try:
+                v, _, _ = E.run(f, cpath, [], {})
+                ROLE[E.describe(v, f)] = cpath.split("::")[-1]
+            except E.Unsupported:
+                pass
 
     def oracle(kind, name, payload, site):
         if kind == "cmp":
@@ -96,7 +105,8 @@ def eval_migration(f, path, records, target_empty=True):
         t, args, it = payload
         names = [it.tokname(a) for a in args]
         if name == "open_table":
-            return E.Ok(E.Tok("table:" + (names[1].split("::")[-1] if len(names) > 1 else "?")))
+            tn = names[1] if len(names) > 1 else "?"
+            return E.Ok(E.Tok("table:" + ROLE.get(tn, tn.split("::")[-1])))
         if name in ("is_empty", "len") and names and names[0].startswith("table:"):
             tn = names[0]
             n = len(records) if tn.endswith(":RECORDS_TABLE") else (0 if target_empty else 3)
